@@ -1025,3 +1025,52 @@ fire("c07-guard-split-refused-after-the-end", "C07", ["C07.guard"],
 fire("c08-fresh-blocked-address-asked-after-creation", "C08", ["C08.fresh"],
      (VESTGO, "	if bk.BlockedAddr(toAddress) {\n		k.Logger(ctx).Debug(\"new vesting account is not allowed to receive funds error\", \"address\", toAddress)\n		return sdkerrors.Wrapf(types.ErrAccountNotAllowedToReceiveFunds, \"new vesting account - account address: %s\", toAddress)\n	}\n\n	if acc := ak.GetAccount(ctx, toAddress); acc != nil {", "	if acc := ak.GetAccount(ctx, toAddress); acc != nil {"),
      (VESTGO, "	coinsToSend := sdk.NewCoins(coinToSend)\n	err = k.bank.SendCoinsFromModuleToAccount(ctx, types.ModuleName, toAddress, coinsToSend)", "	if bk.BlockedAddr(toAddress) {\n		return sdkerrors.Wrapf(types.ErrAccountNotAllowedToReceiveFunds, \"new vesting account - account address: %s\", toAddress)\n	}\n	coinsToSend := sdk.NewCoins(coinToSend)\n	err = k.bank.SendCoinsFromModuleToAccount(ctx, types.ModuleName, toAddress, coinsToSend)"))
+# ---------------- round-11 rules ----------------
+AVP = "x/cfevesting/keeper/account_vesting_pools.go"
+fire("c05-key-accessor-canonicalises-owner", "C05", ["C05.key"],
+     (AVP, "	store.Set([]byte(accountVestingPools.Owner), av)", "	store.Set([]byte(sdk.MustAccAddressFromBech32(accountVestingPools.Owner).String()), av)"))
+silent("c05-key-accessor-key-in-a-local", "C05",
+       (AVP, "	store.Set([]byte(accountVestingPools.Owner), av)", "	owner := accountVestingPools.Owner\n	key := []byte(owner)\n	store.Set(key, av)"))
+MVD_OLD = "			amount = amount.Add(sdk.NewCoin(denom, denAmount))"
+fire("c07-move-amount-appended-raw", "C07", ["C07.move"],
+     (MVD, MVD_OLD, "			amount = append(amount, sdk.NewCoin(denom, denAmount))"))
+silent("c07-move-amount-added-as-a-set", "C07",
+       (MVD, MVD_OLD, "			amount = amount.Add(sdk.NewCoins(sdk.NewCoin(denom, denAmount))...)"))
+fire("c03-burnkey-id-through-address-rendering", ["C03", "C04"], ["C03.burnkey", "C04.key"],
+     (DISTYPES, "	return account.Type + \"-\" + account.Id\n", "	if addr, err := sdk.AccAddressFromBech32(account.Id); err == nil {\n		return account.Type + \"-\" + addr.String()\n	}\n	return account.Type + \"-\" + account.Id\n"))
+silent("c03-burnkey-sprintf", ["C03", "C04"],
+       (DISTYPES, "	return account.Type + \"-\" + account.Id\n", "	return fmt.Sprintf(\"%s-%s\", account.Type, account.Id)\n"))
+fire("c13-errprop-primary-share-error-shadowed", "C13", ["C13.errprop"],
+     (DISTYPES, "	if err := destinations.PrimaryShare.Validate(); err != nil {\n		return fmt.Errorf(\"primary share validation error: %w\", err)\n	}\n	if err := destinations.CheckIfSharesSumIsBetween0And1(); err != nil {\n		return err\n	}\n	return nil",
+      "	var err error\n	if err := destinations.PrimaryShare.Validate(); err != nil {\n		err = fmt.Errorf(\"primary share validation error: %w\", err)\n	}\n	if err != nil {\n		return err\n	}\n	if err := destinations.CheckIfSharesSumIsBetween0And1(); err != nil {\n		return err\n	}\n	return nil"))
+silent("c13-errprop-errors-through-one-variable", "C13",
+       (DISTYPES, "	if err := destinations.PrimaryShare.Validate(); err != nil {\n		return fmt.Errorf(\"primary share validation error: %w\", err)\n	}\n	if err := destinations.CheckIfSharesSumIsBetween0And1(); err != nil {\n		return err\n	}\n	return nil",
+        "	err := destinations.PrimaryShare.Validate()\n	if err != nil {\n		return fmt.Errorf(\"primary share validation error: %w\", err)\n	}\n	err = destinations.CheckIfSharesSumIsBetween0And1()\n	return err"))
+fire("c15-args-second-pem-block-preferred", "C15", ["C15.args"],
+     (SIGUTIL, "	block, _ := pem.Decode(inputCert)\n", "	block, rest := pem.Decode(inputCert)\n	if next, _ := pem.Decode(rest); next != nil {\n		block = next\n	}\n"))
+silent("c15-args-rest-named-and-dropped", "C15",
+       (SIGUTIL, "	block, _ := pem.Decode(inputCert)\n", "	block, rest := pem.Decode(inputCert)\n	_ = rest\n"))
+fire("c16-atomic-invalid-result-logged-not-stored", "C16", ["C16.atomic"],
+     (VUP, "	appKeepers.GetC4eVestingKeeper().SetAccountVestingPools(ctx, *vestingPoolsP)\n\n	return nil\n}", "	if len(vestingPoolsP.VestingPools) > 64 {\n		ctx.Logger().Error(\"too many pools\", \"owner\", vestingPoolsP.Owner)\n		return nil\n	}\n	appKeepers.GetC4eVestingKeeper().SetAccountVestingPools(ctx, *vestingPoolsP)\n\n	return nil\n}"))
+fire("c20-zerolit-named-coin-returned-with-nil-error", "C20", ["C20.zerolit"],
+     (VESTGO, "		return withdrawn, sdkerrors.Wrapf(sdkerrors.ErrNotFound, \"withdraw all available - no vesting pools found error: owner: %s\", owner)", "		return withdrawn, nil"))
+silent("c20-zerolit-error-through-named-result-and-bare-return", "C20",
+       (VESTGO, "		return withdrawn, sdkerrors.Wrapf(sdkerrors.ErrNotFound, \"withdraw all available - no vesting pools found error: owner: %s\", owner)", "		returnedError = sdkerrors.Wrapf(sdkerrors.ErrNotFound, \"withdraw all available - no vesting pools found error: owner: %s\", owner)\n		return"))
+silent("c16-atomic-store-under-nil-error-single-return", "C16",
+       (VUP, "	_, err = splitVestingPool(vestingPoolsP, validatorsVestingPools, strategicReserveShortTermRoundPoolName, strategicReserveShortTermRoundTypeName, strategicReserveShortTermRoundUc4e, 2, 0)\n	if err != nil {\n		return err\n	}\n\n	appKeepers.GetC4eVestingKeeper().SetAccountVestingPools(ctx, *vestingPoolsP)\n\n	return nil\n}",
+        "	_, err = splitVestingPool(vestingPoolsP, validatorsVestingPools, strategicReserveShortTermRoundPoolName, strategicReserveShortTermRoundTypeName, strategicReserveShortTermRoundUc4e, 2, 0)\n	if err == nil {\n		appKeepers.GetC4eVestingKeeper().SetAccountVestingPools(ctx, *vestingPoolsP)\n	}\n	return err\n}"))
+silent("c13-errprop-chained-through-one-variable", "C13",
+       (DISTYPES, "	if err := destinations.PrimaryShare.Validate(); err != nil {\n		return fmt.Errorf(\"primary share validation error: %w\", err)\n	}\n	if err := destinations.CheckIfSharesSumIsBetween0And1(); err != nil {\n		return err\n	}\n	return nil",
+        "	err := destinations.PrimaryShare.Validate()\n	if err != nil {\n		err = fmt.Errorf(\"primary share validation error: %w\", err)\n	}\n	if err == nil {\n		err = destinations.CheckIfSharesSumIsBetween0And1()\n	}\n	return err"))
+silent("c15-args-first-block-through-helper", "C15",
+       (SIGUTIL, "	block, _ := pem.Decode(inputCert)\n", "	block := firstPEMBlock(inputCert)\n"),
+       (SIGUTIL, "func GetUserCertificateFromString(", "func firstPEMBlock(data []byte) *pem.Block {\n	block, _ := pem.Decode(data)\n	return block\n}\n\nfunc GetUserCertificateFromString("))
+silent("c05-key-accessors-share-a-key-helper", ["C05", "C06"],
+       (AVP, "	store.Set([]byte(accountVestingPools.Owner), av)", "	store.Set(poolsKey(accountVestingPools.Owner), av)"),
+       (AVP, "	b := store.Get([]byte(accountAddress))", "	b := store.Get(poolsKey(accountAddress))"),
+       (AVP, "	key := []byte(accountAddress)", "	key := poolsKey(accountAddress)"),
+       (AVP, "// get the vesting types\nfunc (k Keeper) GetAccountVestingPools(", "func poolsKey(owner string) []byte {\n	return []byte(owner)\n}\n\n// get the vesting types\nfunc (k Keeper) GetAccountVestingPools("))
+silent("c07-move-amount-built-by-helper", "C07",
+       (MVD, "	amount := sdk.NewCoins()\n	for _, denom := range msg.Denoms {\n		if len(denom) == 0 {\n			return nil, sdkerrors.Wrapf(types.ErrParam, \"move available vesting by denoms - empty denom\")\n		}\n		denAmount := locked.AmountOf(denom)\n		if denAmount.IsPositive() {\n			amount = amount.Add(sdk.NewCoin(denom, denAmount))\n		}\n	}\n",
+        "	amount, err := lockedOfDenoms(locked, msg.Denoms)\n	if err != nil {\n		return nil, err\n	}\n"),
+       (MVD, "func (k msgServer) MoveAvailableVestingByDenoms(", "func lockedOfDenoms(locked sdk.Coins, denoms []string) (sdk.Coins, error) {\n	amount := sdk.NewCoins()\n	for _, denom := range denoms {\n		if len(denom) == 0 {\n			return nil, sdkerrors.Wrapf(types.ErrParam, \"move available vesting by denoms - empty denom\")\n		}\n		denAmount := locked.AmountOf(denom)\n		if denAmount.IsPositive() {\n			amount = amount.Add(sdk.NewCoin(denom, denAmount))\n		}\n	}\n	return amount, nil\n}\n\nfunc (k msgServer) MoveAvailableVestingByDenoms("))
